@@ -13,3 +13,6 @@ theories/SyncFut/QueueStep.vos theories/SyncFut/QueueStep.vok theories/SyncFut/Q
 theories/SyncFut/TaskStep.vo theories/SyncFut/TaskStep.glob theories/SyncFut/TaskStep.v.beautified theories/SyncFut/TaskStep.required_vo: theories/SyncFut/TaskStep.v theories/SyncFut/Model.vo theories/SyncFut/Spec.vo theories/SyncFut/Inv.vo theories/SyncFut/QueueStep.vo
 theories/SyncFut/TaskStep.vio: theories/SyncFut/TaskStep.v theories/SyncFut/Model.vio theories/SyncFut/Spec.vio theories/SyncFut/Inv.vio theories/SyncFut/QueueStep.vio
 theories/SyncFut/TaskStep.vos theories/SyncFut/TaskStep.vok theories/SyncFut/TaskStep.required_vos: theories/SyncFut/TaskStep.v theories/SyncFut/Model.vos theories/SyncFut/Spec.vos theories/SyncFut/Inv.vos theories/SyncFut/QueueStep.vos
+theories/SyncFut/Frame.vo theories/SyncFut/Frame.glob theories/SyncFut/Frame.v.beautified theories/SyncFut/Frame.required_vo: theories/SyncFut/Frame.v theories/SyncFut/Model.vo theories/SyncFut/Spec.vo theories/SyncFut/Inv.vo theories/SyncFut/QueueStep.vo theories/SyncFut/TaskStep.vo
+theories/SyncFut/Frame.vio: theories/SyncFut/Frame.v theories/SyncFut/Model.vio theories/SyncFut/Spec.vio theories/SyncFut/Inv.vio theories/SyncFut/QueueStep.vio theories/SyncFut/TaskStep.vio
+theories/SyncFut/Frame.vos theories/SyncFut/Frame.vok theories/SyncFut/Frame.required_vos: theories/SyncFut/Frame.v theories/SyncFut/Model.vos theories/SyncFut/Spec.vos theories/SyncFut/Inv.vos theories/SyncFut/QueueStep.vos theories/SyncFut/TaskStep.vos
